@@ -5,10 +5,11 @@ import Driver.SstDrv
 import Driver.EngineDrv
 import Driver.CrashDrv
 import Driver.WalFaultDrv
+import Driver.ConfigDrv
 open Driver
 
 def components : List (String × Component) :=
-  [("wal", WalDrv.component), ("sst", SstDrv.component), ("engine", EngineDrv.component), ("crash", CrashDrv.component), ("walfault", WalFaultDrv.component)]
+  [("wal", WalDrv.component), ("sst", SstDrv.component), ("engine", EngineDrv.component), ("crash", CrashDrv.component), ("walfault", WalFaultDrv.component), ("config", ConfigDrv.component)]
 
 def main (args : List String) : IO UInt32 := do
   match args with
